@@ -11,7 +11,8 @@ from specs.inotify_emitter import World, QueueEvents, DecodePath, OnThreadStart,
 from specs import c13
 
 PROP = "C19"
-GROUNDABLE = False
+GROUNDABLE = True
+GROUND_SCOPES = (4,)   # a str path, its normalised spelling and their two byte encodings
 BATTERY = "c19_battery.py"
 
 
